@@ -20,6 +20,9 @@ Tie: G  `Gen.proximity_dask` (pad expressions, depth order, boundary, fallback, 
         Every difference found is re-run through the public Dask / NumPy API before it is reported, a random
         sample of the window cases goes through the public API as well (simulated == real), and a sample
         goes through the Lean model `Prox.run` on the clipped windows (model == kernel on the block cells).
+        (3) stream `geo`: the public functions with GREAT_CIRCLE on lon/lat rasters (base latitudes 0, +-45, +-60, +-80 and next to
+        a pole; cells 1e-4..1 degree; max_distance classes), restricted to the property's domain: the only in-domain rasters on
+        which a cell reaches a target in another column are those whose columns are millimetres wide (see `gen_geo_case`).
 Oracle (from the property text): public Dask result == public NumPy result.  Differences are classified with a
 brute-force nearest-target search: where Dask reports an exact nearest target and NumPy (the whole-raster
 heuristic sweep) does not, or both report exact nearest targets that are equidistant, the finding is a
